@@ -180,4 +180,31 @@ mut("C03 N: conjunction commuted", [(PRE, "        is_mass_spanning && is_moment
 mut("C06 p_e divides by omega of the parent graph", [(PRE, "                / uniform.from_f64(self.table[graph_without_edge.id].generalized_dod);", "                / uniform.from_f64(self.table[subgraph.id].generalized_dod);")], C06="C06-d")
 mut("C06 p_e numerator from the parent graph", [(PRE, "            let p_e = uniform.from_f64(self.table[graph_without_edge.id].j_function)", "            let p_e = uniform.from_f64(self.table[subgraph.id].j_function)")], C06="C06-d")
 
+# ---- global behaviour-preserving refactors: every check must stay silent ----
+ALLP = dict(C03=None, C04=None, C05=None, C06=None, C07=None, C08=None, C09=None, C10=None, C11=None, C12=None, C13=None, C14=None, C15=None, C16=None, C17=None, C18=None, C19=None, C20=None)
+M.append({"name": "N: private helpers renamed (sector, scan, id methods, graph routines, kernels)", "edits": [
+    ("re", r"\bpermatuhedral_sampling\b", "sector_sampling"), ("re", r"\bsample_edge\b", "pick_edge"), ("re", r"\bpop_edge\b", "without_edge"),
+    ("re", r"\bcontains_edges\b", "edge_indices"), ("re", r"\bhas_one_edge\b", "is_single_edge"), ("re", r"\bget_loop_number\b", "loop_count"),
+    ("re", r"\bis_mass_momentum_spanning\b", "spans_masses_and_momenta"), ("re", r"\bget_connected_components\b", "components_of"),
+    ("re", r"\brecursive_fill_j_function\b", "fill_j"), ("re", r"\bcompute_l_matrix\b", "build_l"), ("re", r"\bcompute_v_polynomial\b", "v_poly"),
+    ("re", r"\bcompute_u_vectors\b", "u_vecs"), ("re", r"\bcompute_loop_momenta\b", "momenta_map"), ("re", r"\bsample_q_vectors\b", "gaussians"),
+    ("re", r"\bbox_muller\b", "bm_pair"), ("re", r"\bget_random_number\b", "next_coordinate"), ("re", r"\bMimicRng\b", "PointReader"),
+    ("re", r"\bget_full_subgraph_id\b", "full_id"), ("re", r"\bl21_norm\b", "column_norm_sum"), ("re", r"\bnew_identity\b", "identity_like"),
+    ("re", r"\bget_num_variables\b", "hypercube_dim"), ("re", r"\binverse_gamma_lr_impl\b", "gamma_quantile_f64"), ("re", r"\bfrom_edge_list\b", "from_edges"),
+], "expect": dict(ALLP)})
+M.append({"name": "N: local variables renamed in the kernels", "edits": [
+    ("re", r"\bkappa\b", "weight_acc"), ("re", r"\bx_vec\b", "params"), ("re", r"\bdet_q\b", "pivot_product"), ("re", r"\bcum_sum\b", "running"),
+    ("re", r"\bn_matrix\b", "nil"), ("re", r"\binverse_q\b", "qinv"), ("re", r"\bdiagonal_entry_squared\b", "pivot_sq"), ("re", r"\blast_edge\b", "fallback"),
+], "expect": dict(ALLP)})
+M.append({"name": "N: generic parameter T renamed to F in sampling.rs", "edits": [
+    (SAM, "fn box_muller<T: MomTropFloat>(x1: &T, x2: &T) -> (T, T) {", "fn box_muller<F: MomTropFloat>(x1: &F, x2: &F) -> (F, F) {"),
+], "expect": dict(ALLP)})
+
+M.append({"name": "N: scalar type parameter renamed T -> F in matrix.rs, vector.rs, sampling.rs, mimic_rng.rs, gamma.rs", "edits": [
+    ("re", r"\bT\b", "F", "matrix.rs"), ("re", r"\bT\b", "F", "vector.rs"), ("re", r"\bT\b", "F", "sampling.rs"), ("re", r"\bT\b", "F", "mimic_rng.rs"), ("re", r"\bT\b", "F", "gamma.rs"),
+], "expect": dict(ALLP)})
+M.append({"name": "N: const parameter D renamed to N in lib.rs", "edits": [
+    ("re", r"\bD\b", "N", "lib.rs"),
+], "expect": dict(ALLP)})
+
 MUTATIONS = M
